@@ -287,10 +287,24 @@ fn scenario(ctx: &Ctx, ci: usize, plan: &Value, si: usize, table: &Table) -> Val
     for k in ["CARGO_HOME", "CARGO", "RUSTFMT"] {
         cmd.env_remove(k);
     }
+    // a formatter in reach (Delivery!Formatters): the rasn backend looks for $CARGO_HOME/bin/rustfmt.  "identity" copies its
+    // input (the delivered text stays the unformatted one, byte for byte); "fails" reads it and exits with status 1
+    let fmt = plan["fmt"].as_str().unwrap_or("absent");
+    if fmt != "absent" {
+        let home = s.join("cargo_home");
+        fs::create_dir_all(home.join("bin")).unwrap();
+        let script = home.join("bin/rustfmt");
+        fs::write(&script, if fmt == "identity" { "#!/bin/sh\ncat\n" } else { "#!/bin/sh\ncat > /dev/null\nexit 1\n" }).unwrap();
+        chmod(&script, 0o755);
+        chmod(&home, 0o755);
+        chmod(&home.join("bin"), 0o755);
+        cmd.env("CARGO_HOME", &home);
+    }
     if ctx.drop_root {
         use std::os::unix::process::CommandExt;
         cmd.uid(65534).gid(65534);
     }
+    let before = snapshot(&s);
     let before = { let mut b = before; b.remove("spec.json"); b };
     let output = cmd.output();
     let mut after = snapshot(&s);
@@ -334,7 +348,7 @@ fn scenario(ctx: &Ctx, ci: usize, plan: &Value, si: usize, table: &Table) -> Val
         }
     };
     chmod(&out, 0o777);
-    let ev = json!({"ev": "deliver", "case": ci, "set": si, "api": api, "backend": backend, "srcform": form, "mode": mode, "dest": dest, "input": input,
+    let ev = json!({"ev": "deliver", "case": ci, "set": si, "api": api, "backend": backend, "srcform": form, "mode": mode, "dest": dest, "input": input, "fmt": fmt,
                     "compiled": refo.status, "result": result, "target_after": target_after, "others": others, "stdout": stdout_cls,
                     "warnings_same": warnings.map(|w| w == refo.warnings).unwrap_or(true), "detail": detail,
                     "delivers": hook_facts["delivers"], "deliver_last": hook_facts["deliver_last"], "hooks": hook_facts["hooks"],
